@@ -181,6 +181,22 @@ def _tables(repo, rep):
               "a type prefix is a word starting with a lower-case letter, "
               "anchored at the start (after optional white space) and "
               "followed by ':'", construct="prefix-pattern", detail=detail)
+    # ... except the one word that opens a Python expression when a colon
+    # follows it: 'lambda: 1' is python (the default type), not an unknown
+    # type 'lambda' -- the pattern refuses it by a negative look-ahead
+    refuses = False
+    if pat is not None and hasattr(pat, "pattern"):
+        from .. import rx
+        for op, av in rx.parse(pat.pattern, pat.flags):
+            if op is rx.C.ASSERT_NOT and av[0] == 1:
+                lits = "".join(chr(a) for o, a in av[1]
+                               if o is rx.C.LITERAL)
+                if lits == "lambda:":
+                    refuses = True
+    rep.check(refuses, "R04.1", "chameleon.tales.match_prefix", "a python "
+              "expression that begins with a parameter-less lambda is not "
+              "taken for an expression of the unknown type 'lambda'",
+              construct="prefix-not-lambda", detail=detail)
     # ExpressionParser: prefix regex + dispatch
     pf = repo.func(TALES + "ExpressionParser.__call__")
     text = L.text(pf.node)
